@@ -6,7 +6,7 @@
 (*                   validators up to MaxV) x every status of its type                                              *)
 (*   Mode "fields" : the class grows by one field per step (up to MaxF), fields drawn from a catalogue of           *)
 (*                   representative (validators, status) profiles, x cap                                            *)
-EXTENDS Validation, Json
+EXTENDS Validation, Json, SequencesExt
 
 CONSTANTS Mode, MaxV, MaxF,
           PlaceSet,      \* placements explored
@@ -45,7 +45,7 @@ PhoneEqC == V("phone", 10, 10, "Bad mobile phone")
 PhoneNPEqC == V("phonenp", 12, 12, "Bad local phone")
 
 \* Families of the rules mode: family -> field type, validator alphabet, statuses
-TypeOf(fam) == IF fam \in {"phone", "email"} THEN "str" ELSE fam
+TypeOf(fam) == IF fam \in {"phone", "email"} THEN "str" ELSE IF fam = "wide" THEN "wstr" ELSE fam
 Alphabet(fam) ==
   CASE fam = "int"    -> {Req, ReqC, Range1, RangeC, RangeEq, Custom}
     [] fam = "optint" -> {Req, ReqC, Custom, CustomC}
@@ -54,7 +54,12 @@ Alphabet(fam) ==
     [] fam = "email"  -> {Req, Email, EmailC, Custom, MaxSizeC}
     [] fam \in {"vecint", "vecstr", "mapint"} -> {Req, ReqC, MinSize2, MaxSize4, MinSizeC, MaxSizeC}
     [] fam = "obj"    -> {Req, ReqC, Custom, CustomC}
+    [] fam = "wide"   -> {Req, Email, EmailC, Phone, PhoneC, MaxSizeC}
 
+\* statuses of the wide-string family: "w<k>" = the k-th wide example
+WideDocs == SetToSeq(WEmailValid \cup WEmailInvalid \cup WPhoneExamples)
+WideStatus(k) == "w" \o ToString(k)
+WideIndex(st) == CHOOSE k \in 1..Len(WideDocs) : WideStatus(k) = st
 (* Statuses and the document value they stand for.  int: relative to Range(0,10), Range(1,9) and Range(5,5);           *)
 (* strings and containers: sizes relative to MinSize(2)/MaxSize(4) and MinSize(3)/MaxSize(3)                           *)
 Ints(n) == [i \in 1..n |-> i]
@@ -74,7 +79,8 @@ PhoneStatus == [ph1 |-> "+555 (55) 555-55-55", ph2 |-> "(55) 555 55 55", ph3 |->
                 ph18 |-> "+1 (555) 555-5555-", ph19 |-> "+1 (555) -555-55-55", ph20 |-> "+1 (-555) 555-55-55", ph21 |-> "+1 (555-) 555-55-55",
                 ph22 |-> "*1 (555) 555-55-55", ph23 |-> "1 (555) 555-55-55$", ph24 |-> "1 (555) 555-55=55"]
 DocOf(t, st) ==
-  IF st \in DOMAIN EmailStatus THEN <<"str", EmailStatus[st]>>
+  IF t = "wstr" /\ st \notin {"absent", "null", "mismatch"} THEN <<"wstr", WideDocs[WideIndex(st)]>>
+  ELSE IF st \in DOMAIN EmailStatus THEN <<"str", EmailStatus[st]>>
   ELSE IF st \in DOMAIN PhoneStatus THEN <<"str", PhoneStatus[st]>>
   ELSE IF t \in {"vecint", "vecstr", "mapint"} /\ st \in {"len1", "len2", "len3", "len4", "len5"} THEN
        (IF t = "vecint" THEN <<"ints", Ints(SizeOfStatus(st))>> ELSE IF t = "vecstr" THEN <<"strs", Strs(SizeOfStatus(st))>>
@@ -107,6 +113,7 @@ Statuses(fam) ==
                        "em1", "em2", "em3", "em4", "em5", "em6", "em7", "ph1", "ph2", "ph3", "ph4", "ph5", "ph6", "ph7"}
     [] fam = "phone" -> DOMAIN PhoneStatus \cup {"absent", "null"}
     [] fam = "email" -> DOMAIN EmailStatus \cup {"absent", "null"}
+    [] fam = "wide" -> {WideStatus(k) : k \in 1..Len(WideDocs)} \cup {"absent", "null"}
     [] fam \in {"vecint", "vecstr", "mapint"} -> {"len1", "len2", "len3", "len4", "len5", "absent", "null", "mismatch"}
 
 \* the policy only matters where a value can be mismatched, or (a claim about null) not loaded: the ThrowError policy is
@@ -117,13 +124,16 @@ Key(k) == "f" \o ToString(k)
 Field(k, t, st, vs) == [key |-> Key(k), t |-> t, st |-> st, doc |-> DocOf(t, st), vs |-> vs]
 FieldInScope(f) == \A j \in 1..Len(f.vs) : Applicable(f.vs[j], f.t) /\ InScopeV(f.vs[j], f.t, f.doc)
 
-NelOf(p) == IF p \in {"flat", "nested"} THEN {1} ELSE {1, 2}
+NelOf(p) == IF p \in {"flat", "nested", "attr"} THEN {1} ELSE {1, 2}
+\* XML attributes hold numbers and strings, present or absent
+AttrOK(p, t, st) == p = "attr" => (t \in {"int", "str"} /\ st \notin {"null", "mismatch"})
 
 -----------------------------------------------------------------------------
 (* Mode "rules" *)
 InitRules == \E p \in PlaceSet, c \in Caps, fam \in FieldTypes, pol \in Pols :
                \E n \in NelOf(p), st \in Statuses(fam) :
                   /\ pol = "throw" => st \in ThrowStatuses
+                  /\ AttrOK(p, TypeOf(fam), st)
                   /\ scn = [place |-> p, nel |-> n, cap |-> c, pol |-> pol, fam |-> fam, fields |-> <<Field(1, TypeOf(fam), st, <<>>)>>]
 
 NextRules == LET f == scn.fields[1] IN
